@@ -275,6 +275,8 @@ pub fn params_from_json(v: &Value) -> GenParams {
     let fam = |s: &str| match s {
         "V6" => Family::V6,
         "Dual" => Family::Dual,
+        "V6Mapped" => Family::V6Mapped,
+        "DualMapped" => Family::DualMapped,
         _ => Family::V4,
     };
     GenParams {
@@ -414,7 +416,13 @@ fn run_item(tier: Tier, it: &Items, i: usize, acc: &mut JsonAcc) {
     let max_exec = 4096;
     // thorough: every ordered pair up to depth 3, every 4th second question beyond
     let stride = match tier {
-        Tier::Quick => 3usize,
+        Tier::Quick => {
+            if p.depth >= 3 {
+                3usize
+            } else {
+                1
+            }
+        }
         Tier::Thorough => {
             if p.depth >= 4 {
                 4
@@ -427,8 +435,12 @@ fn run_item(tier: Tier, it: &Items, i: usize, acc: &mut JsonAcc) {
     };
     check_history(acc, p, u, vec![Step::Ask(qs[qi].clone())], max_exec);
     // ordered pairs sharing one cache, clock advanced by 0 or past the short TTL
-    let mut j = (qi * 7) % stride;
-    while j < qs.len() {
+    // (a strided selection always keeps the pairs that ask the same name for
+    // another type: they re-use cached aliases with an uncached final set)
+    for j in 0..qs.len() {
+        if !(j % stride == (qi * 7) % stride || qs[j].name == qs[qi].name) {
+            continue;
+        }
         for adv in [0u64, (SHORT_TTL as u64 + 1) * 1000] {
             let mut steps = vec![Step::Ask(qs[qi].clone())];
             if adv > 0 {
@@ -437,7 +449,6 @@ fn run_item(tier: Tier, it: &Items, i: usize, acc: &mut JsonAcc) {
             steps.push(Step::Ask(qs[j].clone()));
             check_history(acc, p, u, steps, max_exec);
         }
-        j += stride;
     }
 }
 
